@@ -24,6 +24,7 @@ pub fn get_message(squitter: &str) -> Option<Vec<u32>> {
         .filter(|message| matches!(message.len(), 14 | 28))
         .filter(|message| reminder(message) == 0)
         .filter(|message| length_matches_format(message))
+        .filter(|message| parity_is_valid(message))
 }
 
 pub(crate) fn get_hex_message(message: &[u32]) -> String {
